@@ -126,7 +126,8 @@ function getPrepareStackTrace (originalPrepareStackTrace) {
         }
         const { path, line, column } = getSourcePathAndLineFromSourceMaps(filename, originalLine, originalColumn)
         if (path !== filename || line !== originalLine || column !== originalColumn) {
-          return stackFrame.replace(`${filename}:${originalLine}:${originalColumn}`, `${path}:${line}:${column}`)
+          // a replacer function: the original path is text, not a replacement pattern ($&, $1, $$ ...)
+          return stackFrame.replace(`${filename}:${originalLine}:${originalColumn}`, () => `${path}:${line}:${column}`)
         }
         return stackFrame
       })
